@@ -3,7 +3,7 @@
    regenerated from x/format/format.go and cl/builtin.go on every run).  Proofs in Proofs/C25.v. *)
 From Coq Require Import List NArith ZArith Bool String Ascii.
 Import ListNotations.
-From V Require Import Base.Prelude Gen.C25 Model.C25 Proofs.C25 Proofs.C25Del.
+From V Require Import Base.Prelude Gen.C25 Model.C25 Proofs.C25 Proofs.C25Del Proofs.C25Scope.
 
 (* Table obligation (K-gen): every (fmt function, builtin spelling) pair of printFuncs is
    (exported, not exported), and the XGo builtin the formatter substitutes -- after the println -> echo
@@ -29,6 +29,17 @@ Theorem C25_gopstyle_preserves : forall p n tr,
   imports_first (pdecls p) = true -> no_shadow p = true -> no_builtin_clash p = true -> no_case_twin p = true ->
   run n Go p = Ok tr -> run n XGo (gopstyle p) = Ok tr.
 Proof. exact gopstyle_preserves. Qed.
+
+(* PRESERVATION WITH TRACKED SHADOWING.  `var` statements inside functions may be named like an import
+   (scope_safe: only := variables, parameters, receivers and package-level variables must not be; nothing
+   may be named like a substituted builtin).  This is the shadowing formatCtx tracks, with a scope entered
+   and left at every block, if/else branch and function literal body: inside the scope `fmt.Println` stays a
+   method call on the variable, after the scope it is rewritten again, and the import is deleted only if no
+   unshadowed use remains. *)
+Theorem C25_gopstyle_preserves_tracked : forall p n tr,
+  imports_first (pdecls p) = true -> scope_safe p = true -> no_case_twin p = true ->
+  run n Go p = Ok tr -> run n XGo (gopstyle p) = Ok tr.
+Proof. exact gopstyle_preserves_tracked. Qed.
 
 (* the two halves: the converted tree before the deletion of the unused fmt import ... *)
 Theorem C25_gopstyle_keep_preserves : forall p n tr,
@@ -96,6 +107,30 @@ Example C25_example_var_shadow_tracked :
   exists t, run 30 Go ex_shadow_var = Ok t.
 Proof. split; [|split]; try (vm_compute; reflexivity). eexists. vm_compute. reflexivity. Qed.
 
+(* func main() { fmt.Println(0); { var fmt = P{1}; fmt.Println(2); func..{ fmt.Println(3) } }; fmt.Println(4) }
+   -- a var named fmt inside a bare block: covered by the tracked theorem, not by the first one *)
+Definition ex_block : prog := mk
+  [DImport (S "fmt") (S "fmt"); DType (S "P");
+   DMethod (S "P") (S "p") (S "Println") [S "k"] false
+     (ss [SExpr false (ESel (S "fmt") (S "Print") (es [EStr (S "P"); EVar (S "k")]))]);
+   DFunc (S "twice") [S "f"] false (ss [SExpr false (ECall (S "f") ENil); SExpr false (ECall (S "f") ENil)]);
+   DFunc (S "main") [] false
+     (ss [println [EInt 0];
+          SBlock (ss [SVar (S "fmt") (ENew (S "P") (EInt 1));
+                      SExpr false (ESel (S "fmt") (S "Println") (es [EInt 2]));
+                      SExpr false (ECall (S "twice") (es [EFuncLit [] false (ss [SExpr false (ESel (S "fmt") (S "Println") (es [EInt 3]))])]))]);
+          println [EInt 4]])].
+
+Example C25_example_tracked_block :
+  no_shadow ex_block = false /\ scope_safe ex_block = true /\ no_case_twin ex_block = true /\
+  (forall t, run 40 Go ex_block = Ok t -> run 40 XGo (gopstyle ex_block) = Ok t) /\
+  exists t, run 40 Go ex_block = Ok t /\ List.length t = 5.
+Proof.
+  split; [vm_compute; reflexivity|]. split; [vm_compute; reflexivity|]. split; [vm_compute; reflexivity|]. split.
+  - intros t H. apply C25_gopstyle_preserves_tracked; try (vm_compute; reflexivity). exact H.
+  - eexists. split; [vm_compute; reflexivity | reflexivity].
+Qed.
+
 (* func echo(k int) { fmt.Print("my", k) }; func main() { fmt.Println(7) }   -- converted: echo 7 = the user's echo *)
 Definition ex_echo : prog := mk
   [DImport (S "fmt") (S "fmt");
@@ -154,6 +189,7 @@ Proof. intros t H. apply C25_gopstyle_preserves; try (vm_compute; reflexivity). 
 Print Assumptions C25_tables_ok.
 Print Assumptions C25_scope_tracking_invisible.
 Print Assumptions C25_gopstyle_preserves.
+Print Assumptions C25_gopstyle_preserves_tracked.
 Print Assumptions C25_gopstyle_keep_preserves.
 Print Assumptions C25_deletion_invisible.
 Print Assumptions C25_gopstyle_refuted_case_twin.
